@@ -13,25 +13,26 @@ from ..hd import HZ, SEC, expect, events_to_obligations
 FN = "functions.fdd.EFDD_mpe"
 
 
-def handover_rule(prog, run):
+def handover_rule(prog, run, only=None):
     """R-handover: EFDD.mpe / mpe_from_plot hand the spectrum, grid, sampling interval, estimator name and THIS call's bands and fit
     parameters to EFDD_mpe (a value read from run_params must have been stored from the caller's argument before the call)"""
     run.rule("R-handover", "EFDD.mpe / mpe_from_plot pass result.Sy, result.freq, dt, method_SD, the algorithm's method and the DF1, DF2, cm, MAClim, sppk, npmax of this call to EFDD_mpe", 10)
     callee = prog.func("functions.fdd.EFDD_mpe")
     n = 0
-    for ci in prog.classes.values():
-        if not ci.mod.startswith("pyoma2.algorithms"):
-            continue
-        for mname in ("mpe", "mpe_from_plot"):
-            m = ci.methods.get(mname)
-            if m is None:
-                continue
+    for mname in ("mpe", "mpe_from_plot"):
+        for ci, m in prog.class_methods("pyoma2.algorithms", mname):
             want = {"Sy": {"self.result.Sy"}, "freq": {"self.result.freq"}, "dt": {"self.dt", "1 / self.fs"}, "methodSy": {"self.run_params.method_SD"},
                     "method": {"self.method"}}
+            # (seen for one exact class, `self.method` is the label that class carries)
+            _c, _v = prog.find_classattr(ci, "method")
+            if isinstance(_v, ast.Constant) and isinstance(_v.value, str):
+                want["method"].add(repr(_v.value))
             for k in ("DF1", "DF2", "cm", "MAClim", "sppk", "npmax"):
                 want[k] = {k}
             if mname == "mpe":
                 want["sel_freq"] = {"sel_freq"}
+            if only is not None:
+                want = {k: v for k, v in want.items() if k in only}
             for c, p_, ok, detail in astq.handover(prog, m, callee.qual, want):
                 n += 1
                 run.ob("R-handover", m.qual, f"{mname} -> EFDD_mpe.{p_}", ok, detail, witness=detail[:90], file=rel(prog.mods[m.mod].path), node=c, config=p_)
